@@ -86,7 +86,10 @@ def generate(rng, tier, index):
             k = 2  # a single on-plane sample is a degenerate case (see KNOWN_PREDICATES); keep it rare
         box = specgen.rand_box(rng, shape, min_size=1)
         box[a] = [N - k, N + k]
-        dets.append({"kind": "field", "name": f"d{i}", "box": box, "exact": True, "reduce": False, "components": specgen.rand_components(rng)})
+        comps = specgen.rand_components(rng)
+        if rng.uniform() < 0.6:  # the component tuple is a set as far as the record layout goes: give it in arbitrary order
+            comps = [comps[int(j)] for j in rng.permutation(len(comps))]
+        dets.append({"kind": "field", "name": f"d{i}", "box": box, "exact": True, "reduce": False, "components": comps})
     return {"shape": shape, "grid": grid, "steps": T, "faces": faces, "key": 0, "axis": a, "N": N, "rand_materials": mats, "detectors": dets, "sources": [], "init_seed": int(rng.integers(0, 2**31))}
 
 
